@@ -36,6 +36,13 @@ def fail_desc(res, allow):
 
 def do_replay(path):
     rp = json.load(open(path))
+    if rp.get("engine") == "mir-smt":
+        import enginem
+        if enginem.replay(rp, log):
+            log("VIOLATION property=%s replay=%s" % (rp["property"], path))
+            return 1
+        log("not reproduced")
+        return 0
     ws = core.Workspace("replay-%d" % os.getpid())
     try:
         gen = os.path.join(ws.hk, "src", "gen_%s.rs" % rp["feature"])
@@ -196,6 +203,18 @@ def main():
             else:
                 inconclusive.append((j.name, "counterexample for '%s' did not reproduce natively: %s" % (d0, rep)))
 
+        # ---------------- Engine M (MIR -> SMT) obligations of this property
+        em = None
+        if plan.get("engine_m") and not args.only and exit_code != 2 or (plan.get("engine_m") and args.only == "enginem"):
+            import enginem
+            em = enginem.run(prop, tier, seed, ws.dir, log)
+            for (n, why) in em["inconclusive"]:
+                inconclusive.append((n, why))
+            for rp in em["violations"]:
+                violations += 1
+                vio_lines.append("VIOLATION property=%s replay=%s" % (prop, rp))
+            okm = [r for r in em["results"] if r["verdict"] == "ok"]
+            log("engine M: %d/%d obligations discharged, %d queries, %.0fs" % (len(okm), len(em["results"]), em["queries"], em["solver_s"]))
         for note in plan.get("inconclusive_notes", []):
             inconclusive.append(("_plan", note))
         for n, why in inconclusive:
@@ -227,8 +246,8 @@ def main():
                     "VERIFICATION SUCCESSFUL over >0 generated checks with unwinding assertions on, and every "
                     "'W:' reachability witness (kani::cover!) of that harness was SATISFIED",
             "samples": samples,
-            "obligations": len(jobs),
-            "discharged": len(discharged),
+            "obligations": len(jobs) + (len(em["results"]) if em else 0),
+            "discharged": len(discharged) + (len([r for r in em["results"] if r["verdict"] == "ok"]) if em else 0),
             "inconclusive": len(inconclusive),
             "known_findings_seen": kf_seen,
             "solver_s": round(sum(r.solver_s for r in results), 1),
@@ -241,10 +260,21 @@ def main():
             "engine": "Kani 0.68.0 / CBMC 6.11.0 / CaDiCaL; playback = cargo kani playback (dev + checks-off profile)",
             "exhaustive": False,
         }
+        if em:
+            coverage["engine_m"] = {"obligations": len(em["results"]), "discharged": len([r for r in em["results"] if r["verdict"] == "ok"]),
+                                    "queries": em["queries"], "solver_s": round(em["solver_s"], 1), "functions_encoded_from_mir": em["functions"],
+                                    "results": em["results"][:300],
+                                    "bounds": "all operands a, b of u128 / i128; fractional-bit counts listed in results; products of "
+                                              "64-bit limbs abstracted by shared integers with McCormick envelopes (stage A, cvc5 integers), "
+                                              "recombination/shift/flag stage in 400-bit bit-vectors (stage B, cvc5 and z3)"}
+            coverage["evaluations"] += em["queries"]
+            coverage["distinct_nontrivial"] += len([r for r in em["results"] if r["verdict"] == "ok"])
+            coverage["samples"] = coverage["samples"] + em["samples"][:4]
+            coverage["solver_s"] = round(coverage["solver_s"] + em["solver_s"], 1)
         if not args.no_evidence and not args.only:
             core.write_evidence(prop, tier, seed, coverage, plan.get("assumptions", []), wall, violations)
         log("== %s: %d/%d discharged, %d inconclusive, %d violation(s), %.0fs wall, solver %.0fs -> exit %d" % (
-            prop, len(discharged), len(jobs), len(inconclusive), violations, wall,
+            prop, coverage["discharged"], coverage["obligations"], len(inconclusive), violations, wall,
             coverage["solver_s"], exit_code))
     finally:
         if args.keep or exit_code != 0:
